@@ -28,5 +28,6 @@ Conforms(in, obs) ==
 
 Describe(in) == [paths |-> Paths(Ref(in).ents), errs |-> Ref(in).errs]
 
+Beyond(in) == FALSE
 INSTANCE TraceCheck
 =============================================================================
